@@ -38,6 +38,56 @@ type EvalCtx struct {
 	lc      *loopCtx
 	clause  *Clause
 	guard   *Term
+	// wf, when set, collects heap well-formedness facts (a reference read from memory is below the allocation
+	// frontier of the state it is read in) for the loads this evaluation performs; only assumption sites set it
+	wf *wfCollector
+}
+
+type wfCollector struct{ facts []*Term }
+
+// wfLoad records that the pointer-like value v, read from memory in the current state, is an allocated reference.
+func (c *EvalCtx) wfLoad(v Val, t types.Type) {
+	if c.wf == nil || t == nil {
+		return
+	}
+	tm, ok := v.(*Term)
+	if !ok {
+		return
+	}
+	switch t.Underlying().(type) {
+	case *types.Pointer, *types.Map, *types.Chan:
+		c.wf.facts = append(c.wf.facts, c.ex.p.Lt(tm, c.st.heapTop))
+	case *types.Slice:
+		c.wf.facts = append(c.wf.facts, c.ex.p.Lt(c.ex.p.Acc(tm, 0), c.st.heapTop))
+	}
+}
+
+// evalAssume evaluates a clause that is about to be assumed, strengthened with the well-formedness facts of its loads.
+func (ex *Exec) evalAssume(ctx *EvalCtx, cl *Clause) *Term {
+	ctx.wf = &wfCollector{}
+	t := ex.evalBool(ctx, cl)
+	fs := ctx.wf.facts
+	ctx.wf = nil
+	if len(fs) == 0 {
+		return t
+	}
+	return ex.p.And(append([]*Term{t}, fs...)...)
+}
+
+func termMentions(t, v *Term, seen map[*Term]bool) bool {
+	if t == v {
+		return true
+	}
+	if seen[t] {
+		return false
+	}
+	seen[t] = true
+	for _, a := range t.Args {
+		if termMentions(a, v, seen) {
+			return true
+		}
+	}
+	return false
 }
 
 func (c *EvalCtx) errf(format string, args ...interface{}) {
@@ -380,6 +430,9 @@ func (c *EvalCtx) object(obj types.Object) tv {
 				if s := ex.sentinel(g); s != nil {
 					return tv{s, o.Type()}
 				}
+				if cgv := ex.constGlobal(g); cgv != nil {
+					return tv{cgv, o.Type()}
+				}
 				ptr := &PtrV{Kind: PGlobal, Glob: g, Root: o.Type()}
 				ex.noOblige++
 				v := ex.load(c.st, ptr, o.Type(), "")
@@ -631,6 +684,7 @@ func (c *EvalCtx) field(x tv, name string) tv {
 			v := ex.load(c.st, np, ft, "")
 			ex.noOblige--
 			cur = tv{ex.reifyPtr(v, ft), ft}
+			c.wfLoad(cur.v, ft)
 			continue
 		}
 		str, ok := derefStruct(t)
@@ -670,6 +724,7 @@ func (c *EvalCtx) index(x tv, i *Term) tv {
 			s := c.asTerm(x)
 			b := ex.sliceBacking(c.st, s, u.Elem())
 			v := p.Select(b, p.Add(p.Acc(s, 1), i))
+			c.wfLoad(v, u.Elem())
 			return tv{v, u.Elem()}
 		case *types.Array:
 			return tv{p.Select(c.asTerm(x), i), u.Elem()}
@@ -866,6 +921,14 @@ func (c *EvalCtx) call(e *ast.CallExpr) tv {
 				return tv{p.Eq(p.Acc(xt, 0), p.Int(0)), types.Typ[types.Bool]}
 			}
 			return tv{p.Eq(xt, ex.tm.Zero(x.t)), types.Typ[types.Bool]}
+		case "backing":
+			// backing(s): the whole backing array of slice s (indexed by absolute position: element i of s is at off(s)+i)
+			x := c.eval(e.Args[0])
+			u, ok := x.t.Underlying().(*types.Slice)
+			if !ok {
+				c.errf("backing of non-slice")
+			}
+			return tv{ex.sliceBacking(c.st, c.asTerm(x), u.Elem()), nil}
 		case "off":
 			return tv{p.Acc(c.asTerm(c.eval(e.Args[0])), 1), nil}
 		case "ref":
@@ -893,6 +956,20 @@ func (c *EvalCtx) call(e *ast.CallExpr) tv {
 			return tv{p.Implies(c.asTerm(c.eval(e.Args[0])), c.asTerm(c.eval(e.Args[1]))), types.Typ[types.Bool]}
 		case "isErr":
 			return tv{ex.isErr(c.asTerm(c.eval(e.Args[0])), c.asTerm(c.eval(e.Args[1]))), types.Typ[types.Bool]}
+		case "cast":
+			// cast(x, T): the value of interface x viewed as the (pointer) type T; meaningful where typeIs(x, T) holds
+			x := c.asTerm(c.eval(e.Args[0]))
+			t := c.typeExpr(e.Args[1])
+			if t == nil {
+				c.errf("cast: unknown type")
+			}
+			if _, ok := t.Underlying().(*types.Pointer); !ok {
+				c.errf("cast: only pointer types")
+			}
+			if c.wf != nil {
+				c.wf.facts = append(c.wf.facts, p.Implies(p.Eq(ex.dynType(x), ex.typeID(t)), p.Lt(x, c.st.heapTop)))
+			}
+			return tv{x, t}
 		case "typeIs":
 			// typeIs(x, T): dynamic type of interface value x is T
 			x := c.asTerm(c.eval(e.Args[0]))
@@ -1075,8 +1152,21 @@ func (c *EvalCtx) quant(kind string, e *ast.CallExpr) tv {
 			return tv{p.Or(parts...), types.Typ[types.Bool]}
 		}
 		bv := p.BoundVar(id.Name, IntSort)
-		body := c.asTerm(c.bind(id.Name, tv{bv, nil}).eval(e.Args[3]))
+		bc := c.bind(id.Name, tv{bv, nil})
+		if c.wf != nil {
+			bc.wf = &wfCollector{}
+		}
+		body := c.asTerm(bc.eval(e.Args[3]))
 		rng := p.And(p.Le(lo, bv), p.Lt(bv, hi))
+		if c.wf != nil {
+			for _, f := range bc.wf.facts {
+				if !termMentions(f, bv, map[*Term]bool{}) {
+					c.wf.facts = append(c.wf.facts, f)
+				} else if kind == "forall" {
+					body = p.And(body, f)
+				}
+			}
+		}
 		if kind == "forall" {
 			return tv{p.Forall([]*Term{bv}, p.Implies(rng, body)), types.Typ[types.Bool]}
 		}
@@ -1417,16 +1507,117 @@ func (c *EvalCtx) modTargets(e ast.Expr) []modEntry {
 
 // staticRegions: region names of a modifies entry from types only (used by the loop-frame scan).
 func (ex *Exec) staticRegions(c *FuncContract, m *Clause) []string {
+	return ex.staticRegionsSig(c, m, nil, nil)
+}
+
+// staticRegionsSig determines the region names of a modifies entry from types only: names[i] : ptypes[i] are the
+// callee's parameters. Returns nil when the entry cannot be resolved (the caller then forgets everything).
+func (ex *Exec) staticRegionsSig(c *FuncContract, m *Clause, names []string, ptypes []types.Type) []string {
+	typeOfIdent := func(n string) types.Type {
+		for i, nm := range names {
+			if nm == n && i < len(ptypes) {
+				return ptypes[i]
+			}
+		}
+		if n == "self" && len(ptypes) > 0 {
+			return ptypes[0]
+		}
+		return nil
+	}
+	var typeOf func(e ast.Expr) types.Type
+	typeOf = func(e ast.Expr) types.Type {
+		switch e := e.(type) {
+		case *ast.ParenExpr:
+			return typeOf(e.X)
+		case *ast.Ident:
+			return typeOfIdent(e.Name)
+		case *ast.SelectorExpr:
+			xt := typeOf(e.X)
+			if xt == nil {
+				return nil
+			}
+			var pk *types.Package
+			tt := xt
+			if pt, ok := tt.Underlying().(*types.Pointer); ok {
+				tt = pt.Elem()
+			}
+			if n, ok := types.Unalias(tt).(*types.Named); ok {
+				pk = n.Obj().Pkg()
+			}
+			obj, _, _ := types.LookupFieldOrMethod(xt, true, pk, e.Sel.Name)
+			if v, ok := obj.(*types.Var); ok {
+				return v.Type()
+			}
+		}
+		return nil
+	}
 	switch e := m.Expr.(type) {
 	case *ast.Ident:
 		if _, ok := ex.P.CS.Ghosts[e.Name]; ok {
 			return []string{"ghost:" + e.Name}
 		}
+	case *ast.StarExpr:
+		if xt := typeOf(e.X); xt != nil {
+			if pt, ok := xt.Underlying().(*types.Pointer); ok {
+				ex.hintStructRegions(pt.Elem())
+				return structFieldRegions(pt.Elem())
+			}
+		}
+	case *ast.SelectorExpr:
+		if xt := typeOf(e.X); xt != nil {
+			if pt, ok := xt.Underlying().(*types.Pointer); ok {
+				if sT, ok := derefStruct(pt.Elem()); ok {
+					ex.hintStructRegions(pt.Elem())
+					for i := 0; i < sT.NumFields(); i++ {
+						if sT.Field(i).Name() == e.Sel.Name {
+							return []string{fieldRegion(pt.Elem(), sT, i)}
+						}
+					}
+				}
+			}
+		}
 	case *ast.CallExpr:
-		if id, ok := e.Fun.(*ast.Ident); ok && id.Name == "region" {
-			s, _ := strconv.Unquote(e.Args[0].(*ast.BasicLit).Value)
-			return []string{s}
+		if id, ok := e.Fun.(*ast.Ident); ok {
+			if gf, isGF := ex.P.CS.GhostFields[id.Name]; isGF {
+				if _, known := ex.regionSorts["gf:"+id.Name]; !known {
+					ex.regionSorts["gf:"+id.Name] = ex.p.ArraySort(IntSort, ex.specSort(gf.Sort, c.PkgPath))
+				}
+				return []string{"gf:" + id.Name}
+			}
+			switch id.Name {
+			case "region":
+				s, _ := strconv.Unquote(e.Args[0].(*ast.BasicLit).Value)
+				return []string{s}
+			case "elems":
+				if xt := typeOf(e.Args[0]); xt != nil {
+					if sl, ok := xt.Underlying().(*types.Slice); ok {
+						name := "[]" + shortTypeName(sl.Elem())
+						if _, known := ex.regionSorts[name]; !known {
+							ex.regionSorts[name] = ex.p.ArraySort(IntSort, ex.p.ArraySort(IntSort, ex.tm.SortOf(sl.Elem())))
+						}
+						return []string{name}
+					}
+				}
+			}
 		}
 	}
 	return nil
+}
+
+// hintStructRegions records the sorts of the field regions of a struct type (so that a loop frame can forget them
+// even if the execution has not touched them yet).
+func (ex *Exec) hintStructRegions(t types.Type) {
+	if sT, ok := derefStruct(t); ok && !isHashType(t) && !isAddrType(t) {
+		for i := 0; i < sT.NumFields(); i++ {
+			name := fieldRegion(t, sT, i)
+			if _, known := ex.regionSorts[name]; !known {
+				ex.regionSorts[name] = ex.p.ArraySort(IntSort, ex.tm.SortOf(sT.Field(i).Type()))
+			}
+		}
+		return
+	}
+	name := "*" + shortTypeName(t)
+	if _, known := ex.regionSorts[name]; !known {
+		ex.regionSorts[name] = ex.p.ArraySort(IntSort, ex.tm.SortOf(t))
+	}
 }
